@@ -162,8 +162,16 @@ def run_check(prop, tier, seed, a, t0):
                 undecided.append((oid, "solver answers: %s" % (r.answers,)))
         if can_seen.get(id(u)) and not can_ok.get(id(u)) and ok:
             # (when an obligation of this unit failed, the hypotheses after it are expected to be contradictory)
-            checker_failure.append("contradictory hypotheses (`ensures False` provable on every normal exit): %s[%s]"
-                                   % (u.contract.qual, u.case.name))
+            msg = "contradictory hypotheses (`ensures False` provable on every normal exit): %s[%s]" % (u.contract.qual, u.case.name)
+            led_src = (_ledger_sources(prop) or {}).get(u.contract.file)
+            if led_src is not None and led_src != u.src_sha:
+                # the source file differs from the text the contract was proved for: under its contracts the changed
+                # function has no normal exit any more (e.g. it now calls itself where its own precondition cannot
+                # hold) - nothing is proved about it, and nothing refuted
+                ok = False
+                undecided.append(("%s/%s[%s]" % (prop, u.contract.qual, u.case.name), msg + " on a changed source file"))
+            else:
+                checker_failure.append(msg)
         fentry["tier"] = "P" if ok else "P (obligations failed this run)"
         fentry["obligations"] = nvc
         functions.append(fentry)
@@ -332,6 +340,14 @@ def match_known(known, prop, key_text):
 
 
 _LEDGER = None
+
+
+def _ledger_sources(prop):
+    global _LEDGER
+    if _LEDGER is None:
+        p = os.path.join(ROOT, "contracts", "ledger.json")
+        _LEDGER = json.load(open(p)) if os.path.exists(p) else {}
+    return _LEDGER.get(prop, {}).get("sources")
 
 
 def unit_key(u):
